@@ -165,6 +165,52 @@ def check_get(C, drv, L, h, key, tag):
         C.case(key=(tag, key, 'reject', repr(bad)), nontrivial=True, kind='get-reject')
 
 
+def slice_indices(dims, rng, extra=12):
+    """index tuples of the legal length whose entries are integers or slices (at least one slice): every pattern of
+    {first element, last element, whole axis} always, plus a seeded sample of partial / reversed / strided slices"""
+    per_axis = [[0, d - 1, slice(None)] for d in dims]
+    out = [ix for ix in itertools.product(*per_axis) if any(isinstance(i, slice) for i in ix)]
+    seen = set(map(repr, out))
+    for _ in range(extra):
+        ix = tuple(rng.choice([rng.randrange(d), -rng.randrange(1, d + 1), slice(None), slice(0, max(1, d - 1)), slice(1, None),
+                               slice(None, None, -1), slice(None, None, 2), slice(-1, None)]) for d in dims)
+        if any(isinstance(i, slice) for i in ix) and repr(ix) not in seen:
+            seen.add(repr(ix))
+            out.append(ix)
+    return out
+
+
+def check_get_slices(C, L, h, key, tag):
+    """keys whose records form a regular numeric array (local-best positions, user-dumped vectors / matrices / tensors):
+    an index tuple may address a whole sub-array of the record with slices; get() returns, for every recorded iteration in
+    order, that component, stacked as np.hstack stacks them"""
+    np = L['np']
+    records = getattr(h, key)
+    try:
+        arr = np.asarray(records)
+    except ValueError:
+        return
+    if arr.dtype == object or arr.dtype.kind not in 'fiu' or arr.ndim < 2 or 0 in arr.shape:
+        return
+    recs_enc = enc_rec(arr.tolist())
+    if not hasattr(C, 'slice_rng'):
+        import random as _random
+        C.slice_rng = _random.Random(C.ctx['seed'] * 7919 + 3)
+    for ix in slice_indices(arr.shape[1:], C.slice_rng):
+        rp = dict(how='get-slices', key=key, index=[repr(i) for i in ix], records=recs_enc, record_shape=list(arr.shape[1:]))
+        try:
+            out = np.asarray(h.get(key, ix))
+        except Exception as ex:
+            C.issue('get-raised', 'oracle', rp, error=type(ex).__name__ + ': ' + str(ex)[:80])
+            continue
+        exp = np.hstack([np.asarray(r_)[ix] for r_ in records])
+        if out.shape != exp.shape or tolist_keys(out) != tolist_keys(exp):
+            C.issue('get-wrong-series', 'oracle', rp, got_shape=list(out.shape), expected_shape=list(exp.shape),
+                    got=str(out.tolist())[:200], expected=str(exp.tolist())[:200])
+        C.case(key=(tag, key, 'slices', repr(ix), recs_enc[:60]), nontrivial=len(records) > 1, kind=f'get-slices-{key}',
+               sample=dict(key=key, index=[repr(i) for i in ix], n_records=len(records), result_shape=list(out.shape)) if arr.ndim >= 4 else None)
+
+
 def same_attr(a, b):
     L = lib.load()
     Node = L['Node']
@@ -215,6 +261,9 @@ def check(ctx):
             for key in ('agents', 'best_agent', 'local'):
                 if hasattr(h, key):
                     check_get(C, drv, L, h, key, f"{c['kind']}")
+            for key in vars(h):
+                if isinstance(getattr(h, key), list) and getattr(h, key):
+                    check_get_slices(C, L, h, key, f"{c['kind']}")
             # the same instance after its records changed: one more dump, then every series again
             if hasattr(h, 'agents') or hasattr(h, 'best_agent'):
                 sp_ = rec['space']
@@ -310,6 +359,34 @@ def check(ctx):
             if sorted(o.split(',')) != sorted(a):
                 C.issue('load-mismatch', 'correspondence', rp, model=o, real=sorted(a))
             C.case(key=('saveload', c['kind'], c['store_best_only']), nontrivial=True, kind='saveload')
+            # load() into the History object a script has at hand: constructed with either recording flag, empty or already
+            # holding other records under the keys of the file.  What it exposes afterwards is what was saved (the flag too)
+            import copy as _copy
+            for flag_ in (False, True):
+                for holds in ('empty', 'other-records'):
+                    rpr = dict(how='saveload-receiver', cfg=c, receiver_store_best_only=flag_, receiver=holds)
+                    pr_ = os.path.join(scratch, 'receiver.pkl')
+                    try:
+                        h.save(pr_)
+                        hr = L['History'](store_best_only=flag_)
+                        if holds == 'other-records':
+                            for kk_, vv_ in vars(h).items():
+                                if isinstance(vv_, list) and vv_:
+                                    setattr(hr, kk_, [_copy.deepcopy(vv_[-1])] * (len(vv_) + 1))
+                        hr.load(pr_)
+                        a_, b_ = vars(h), vars(hr)
+                        if set(a_) != set(b_):
+                            C.issue('attributes-differ-after-load', 'oracle', rpr, saved=sorted(a_), loaded=sorted(b_))
+                        elif any(not same_attr(a_[kk], b_[kk]) for kk in a_):
+                            C.issue('value-differs-after-load', 'oracle', rpr, key=[kk for kk in a_ if not same_attr(a_[kk], b_[kk])][0])
+                        elif hist_digest.visible(hr, L['Node']) != hist_digest.visible(h, L['Node']):
+                            C.issue('value-differs-after-load', 'oracle', rpr, key='(attribute access)')
+                    except Exception as ex:
+                        C.issue('save-load-raised', 'oracle', rpr, error=type(ex).__name__ + ': ' + str(ex)[:80])
+                    finally:
+                        if os.path.exists(pr_):
+                            os.remove(pr_)
+                    C.case(key=('saveload-receiver', c['kind'], c['store_best_only'], flag_, holds), nontrivial=True, kind='saveload-receiver')
             # bare file name (current directory) and loading into an instance that has answered get() before
             cwd = os.getcwd()
             os.chdir(scratch)
@@ -360,6 +437,16 @@ def check(ctx):
             prev_hist = h
             if len(family) < 4 and all(hist_digest.digest(h, L['Node']) != hist_digest.digest(g_, L['Node']) for g_, _ in family):
                 family.append((h, c))
+        # hand-built histories whose keys are regular numeric arrays of 3-4 axes (records x agents x variables x dimensions for
+        # the local-best positions of a swarm in a search / hypercomplex space; user-dumped vectors, matrices and tensors)
+        for (n_rec, n_ag, n_var, n_dim) in ((4, 3, 2, 1), (3, 2, 3, 4), (1, 2, 2, 2), (5, 1, 1, 3)):
+            hh = L['History']()
+            for t_ in range(n_rec):
+                base_ = (np.arange(n_ag * n_var * n_dim, dtype=float).reshape(n_ag, n_var, n_dim) + 1) / 8.0 + 100.0 * t_
+                hh.dump(local=base_, vec=(base_[0, :, 0] * 2).tolist(), mat=(base_[0] - 0.5).tolist(), tensor=(-base_).tolist(),
+                        counts=(np.arange(n_var * n_dim).reshape(n_var, n_dim) + 10 * t_).tolist())
+            for key in ('local', 'vec', 'mat', 'tensor', 'counts'):
+                check_get_slices(C, L, hh, key, f'hand-built-{n_rec}x{n_ag}x{n_var}x{n_dim}')
         # fitness values of other numeric classes than float (exact rationals, decimals): what was saved is what is loaded
         import fractions as _fr, decimal as _dec
         for kind_, mk_ in (('HC', lambda v: _fr.Fraction(int(round(v * 4096)), 4096)), ('PSO', lambda v: _dec.Decimal(repr(round(v, 6)))),
